@@ -275,6 +275,11 @@ def heightsub_unit(run, runs, prefixes, procs=4):
     if bad.error or "HeightMonotone" not in (bad.violated or ""):
         raise vlib.Inconclusive("self-test: HeightSub.tla without the compare-and-swap loop was not refuted (%s)" % (bad.error or bad.violated))
     run.cov["heightsub_selftest"] = "variant without the CAS loop refuted: HeightMonotone violated after %d states" % bad.generated
+    obs = vlib.tlc(pid, "hs_init", "HeightSub", "HeightSubInit.cfg", workers=4, timeout=1200)
+    if obs.error or "OkWasAvailable" not in (obs.violated or ""):
+        raise vlib.Inconclusive("HeightSub.tla with Init calls: the recorded observation (OkWasAvailable refuted) did not show (%s)" % (obs.error or obs.violated))
+    run.cov["heightsub_observation"] = ("with deletions (Init calls) in the history a cancelled waiter whose record was closed meanwhile may release a later "
+                                        "waiter of the same height: OkWasAvailable refuted by TLC as expected; outside C12's quantifier, reported under OBS_ in the walks")
     wd = vlib.workdir(pid)
     binp = os.path.join(wd, "conch_hs.test")
     vlib.go_build_test("conch", binp)
@@ -322,6 +327,9 @@ def heightsub_unit(run, runs, prefixes, procs=4):
             if f.get("k") != "FAIL":
                 continue
             for p in f["preds"]:
+                if p.startswith("OBS_"):
+                    cnt[p] += 1
+                    continue
                 if not p.startswith(tuple(prefixes)):
                     continue
                 cnt[p] += 1
